@@ -14,6 +14,8 @@ KINDS = {
 }
 
 PRELUDE = r'''
+#include <forward_list>
+#include <deque>
 #include "BaseGraph/types.h"
 #include "BaseGraph/directed_graph.hpp"
 #include "BaseGraph/undirected_graph.hpp"
@@ -48,8 +50,12 @@ def simple_cells(kind, und):
     add("ctor", f"{G} g(3); {G} h; (void)g; (void)h;")
     if kind == "none":
         add("ctor-edges", f"std::vector<Edge> v = {{{{0, 2}}, {{0, 1}}}}; {G} g(v); std::list<Edge> l = {{{{0, 2}}}}; {G} h(l); std::deque<Edge> d; {G} i(d); std::set<Edge> s; {G} j(s);")
+        add("ctor-edges", f"std::forward_list<Edge> f = {{{{0, 2}}, {{0, 1}}}}; {G} g(f);")
     else:
         add("ctor-edges", f"std::vector<LabeledEdge<{k['L']}>> v; v.push_back(LabeledEdge<{k['L']}>(0, 2, {lab})); {G} g(v); std::list<LabeledEdge<{k['L']}>> l(v.begin(), v.end()); {G} h(l);")
+        # containers that offer nothing beyond iteration (no size(), no random access): the documentation asks
+        # only for "a container that can be traversed with a range-based for"
+        add("ctor-edges", f"std::vector<LabeledEdge<{k['L']}>> v; v.push_back(LabeledEdge<{k['L']}>(0, 2, {lab})); std::forward_list<LabeledEdge<{k['L']}>> f(v.begin(), v.end()); {G} g(f); std::deque<LabeledEdge<{k['L']}>> d(v.begin(), v.end()); {G} h(d);")
     add("getSize", f"{G} g(3); size_t n = g.getSize(); (void)n;")
     add("resize", f"{G} g(3); g.resize(5);")
     add("getEdgeNumber", f"{G} g(3); size_t n = g.getEdgeNumber(); (void)n;")
@@ -117,6 +123,7 @@ def fixed_cells():
         c.append((f"fixed.{entry}.{len(c)}", entry, code))
     for G, und in (("DirectedMultigraph", False), ("UndirectedMultigraph", True)):
         add(f"{G}::ctor", f"{G} g(3); {G} h; std::list<LabeledEdge<EdgeMultiplicity>> l = {{{{0, 2, 1}}, {{0, 1, 4}}}}; {G} i(l); std::vector<LabeledEdge<EdgeMultiplicity>> v; {G} j(v);")
+        add(f"{G}::ctor", f"std::forward_list<LabeledEdge<EdgeMultiplicity>> f = {{{{0, 2, 1}}, {{0, 1, 4}}}}; {G} g(f); std::deque<LabeledEdge<EdgeMultiplicity>> d(f.begin(), f.end()); {G} h(d);")
         add(f"{G}::basic", f"{G} g(3); g.resize(4); (void)g.getSize(); (void)g.getEdgeNumber(); (void)g.getTotalEdgeNumber(); {G} h(g); bool b = (g == h) && !(g != h); (void)b;")
         add(f"{G}::addEdge", f"{G} g(3); g.addEdge(0, 1); g.addEdge(0, 1, true); g.addMultiedge(0, 2, 3); g.addMultiedge(0, 2, 3, true);")
         if not und:
@@ -130,6 +137,7 @@ def fixed_cells():
     for G, und in (("DirectedWeightedGraph", False), ("UndirectedWeightedGraph", True)):
         add(f"{G}::ctor", f"{G} g(3); {G} h;")
         add(f"{G}::ctor-edges", f"std::list<LabeledEdge<EdgeWeight>> l = {{{{0, 2, 0.5}}, {{0, 1, -2}}}}; {G} g(l); std::vector<LabeledEdge<EdgeWeight>> v; {G} h(v);")
+        add(f"{G}::ctor-edges", f"std::forward_list<LabeledEdge<EdgeWeight>> f = {{{{0, 2, 0.5}}, {{0, 1, -2}}}}; {G} g(f); std::deque<LabeledEdge<EdgeWeight>> d(f.begin(), f.end()); {G} h(d);")
         add(f"{G}::basic", f"{G} g(3); g.resize(4); (void)g.getSize(); (void)g.getEdgeNumber(); (void)g.getTotalWeight(); {G} h(g); bool b = (g == h) && !(g != h); (void)b;")
         add(f"{G}::addEdge", f"{G} g(3); g.addEdge(0, 1, 0.5); g.addEdge(0, 1, 0.5, true); g.setEdgeWeight(0, 1, 2.);")
         if not und:
